@@ -174,21 +174,120 @@ Proof.
   - eapply Forall_impl; [|exact H6]. cbn. intros t [_ E]. assumption.
 Qed.
 
+(* no batch of a model where the same invocation evicts it, as a proposition *)
+Lemma mon_evicted_iff : forall lds bs, mon_evicted lds bs = true <->
+  forall b t0, In b bs -> hd_error (ob_tasks b) = Some t0 -> evicted_at_end lds (t_model t0) (ob_pool b) (ob_worker b) false = false.
+Proof.
+  intros lds bs. unfold mon_evicted. rewrite forallb_forall. split.
+  - intros H b t0 Hb Ht. specialize (H b Hb). destruct (ob_tasks b) as [|t1 r]; [discriminate|]. cbn in Ht. injection Ht as ->.
+    destruct (evicted_at_end lds (t_model t0) (ob_pool b) (ob_worker b) false); [discriminate|reflexivity].
+  - intros H b Hb. destruct (ob_tasks b) as [|t0 r] eqn:E; [reflexivity|]. rewrite (H b t0 Hb); [reflexivity|rewrite E; reflexivity].
+Qed.
 (* the per-invocation monitor, clause by clause (the replay of the batches on the workers stays a computation) *)
 Lemma mon_invocation_iff : forall wd o, mon_invocation wd o = true <->
   oi_cancelled o = map t_id (filter (hopeless wd (oi_now o)) (oi_offered o)) /\
   mon_batches wd (oi_now o) (oi_pools o) (oi_batches o) = true /\
   NoDup (oi_cancelled o ++ oi_placed o) /\
   (forall i, In i (oi_cancelled o ++ oi_placed o) -> In i (map t_id (oi_offered o))) /\
-  (forall b t, In b (oi_batches o) -> In t (ob_tasks b) -> hopeless wd (oi_now o) t = false).
+  (forall b t, In b (oi_batches o) -> In t (ob_tasks b) -> hopeless wd (oi_now o) t = false) /\
+  (forall b t0, In b (oi_batches o) -> hd_error (ob_tasks b) = Some t0 ->
+     evicted_at_end (oi_load o) (t_model t0) (ob_pool b) (ob_worker b) false = false).
 Proof.
-  intros wd o. unfold mon_invocation. rewrite !andb_true_iff, mon_cancel_iff, znodup_iff, !forallb_forall. split.
-  - intros [[[[H1 H2] H3] H4] H5]. repeat split; try assumption.
+  intros wd o. unfold mon_invocation. rewrite !andb_true_iff, mon_cancel_iff, znodup_iff, mon_evicted_iff, !forallb_forall. split.
+  - intros [[[[[H1 H2] H3] H4] H5] H6]. repeat split; try assumption.
     + intros i Hi. apply zmem_iff. apply H4. assumption.
     + intros b t Hb Ht. specialize (H5 b Hb). rewrite forallb_forall in H5. specialize (H5 t Ht). destruct (hopeless wd (oi_now o) t); [discriminate|reflexivity].
-  - intros [H1 [H2 [H3 [H4 H5]]]]. repeat split; try assumption.
+  - intros [H1 [H2 [H3 [H4 [H5 H6]]]]]. repeat split; try assumption.
     + intros i Hi. apply zmem_iff. apply H4. assumption.
     + intros b Hb. rewrite forallb_forall. intros t Ht. rewrite (H5 b t Hb Ht). reflexivity.
+Qed.
+
+(* ------------------------------------------------------------------ run_load's evictions reach run_inference *)
+Lemma zremove_none : forall {B} k (l : list (Z * B)), zassoc k (zremove k l) = None.
+Proof. intros B k l. induction l as [|[k' v] l IH]; cbn [zremove zassoc]; [reflexivity|]. destruct (k' =? k) eqn:E; [assumption|]. cbn [zassoc]. rewrite E. assumption. Qed.
+Lemma zremove_keeps_none : forall {B} k m (l : list (Z * B)), zassoc m l = None -> zassoc m (zremove k l) = None.
+Proof.
+  intros B k m l. induction l as [|[k' v] l IH]; cbn [zremove zassoc]; intros H; [reflexivity|].
+  destruct (k' =? m) eqn:Em; [discriminate|]. destruct (k' =? k); [apply IH; assumption|]. cbn [zassoc]. rewrite Em. apply IH. assumption.
+Qed.
+Definition not_loaded_at (mid pid wid : Z) (ps : list pool) : Prop :=
+  forall p w, In p ps -> p_id p = pid -> In w (p_workers p) -> w_id w = wid -> zassoc mid (w_loaded w) = None.
+Lemma evict_in_pools_in : forall m' p' w' ps p w, In p (evict_in_pools m' p' w' ps) -> In w (p_workers p) ->
+  exists p0 w0, In p0 ps /\ In w0 (p_workers p0) /\ p_id p = p_id p0 /\ w_id w = w_id w0 /\
+    w = if (p_id p0 =? p') && (w_id w0 =? w') then w_evict m' w0 else w0.
+Proof.
+  intros m' p' w' ps p w Hp Hw. unfold evict_in_pools in Hp. apply in_map_iff in Hp. destruct Hp as [p0 [E Hp0]].
+  destruct (p_id p0 =? p') eqn:Ep.
+  - subst p. cbn [p_workers p_id] in *. apply in_map_iff in Hw. destruct Hw as [w0 [E Hw0]]. exists p0, w0. rewrite Ep. cbn [andb].
+    destruct (w_id w0 =? w'); subst w; repeat split; try assumption; reflexivity.
+  - subst p. exists p0, w. rewrite Ep. cbn [andb]. repeat split; try assumption; reflexivity.
+Qed.
+Lemma evict_establishes : forall mid pid wid ps, not_loaded_at mid pid wid (evict_in_pools mid pid wid ps).
+Proof.
+  intros mid pid wid ps p w Hp Epid Hw Ewid. destruct (evict_in_pools_in _ _ _ _ _ _ Hp Hw) as [p0 [w0 [H1 [H2 [H3 [H4 H5]]]]]].
+  assert (E : (p_id p0 =? pid) && (w_id w0 =? wid) = true) by lia. rewrite E in H5. subst w. cbn [w_evict w_loaded]. apply zremove_none.
+Qed.
+Lemma evict_preserves : forall mid pid wid m' p' w' ps, not_loaded_at mid pid wid ps -> not_loaded_at mid pid wid (evict_in_pools m' p' w' ps).
+Proof.
+  intros mid pid wid m' p' w' ps H p w Hp Epid Hw Ewid. destruct (evict_in_pools_in _ _ _ _ _ _ Hp Hw) as [p0 [w0 [H1 [H2 [H3 [H4 H5]]]]]].
+  assert (H0 : zassoc mid (w_loaded w0) = None) by (apply (H p0 w0); [assumption|lia|assumption|lia]).
+  destruct ((p_id p0 =? p') && (w_id w0 =? w')); subst w; [cbn [w_evict w_loaded]; apply zremove_keeps_none|]; assumption.
+Qed.
+(* a profile evicted by run_load is not loaded on that worker in the cluster run_inference reads *)
+Lemma apply_load_evicted : forall lds ps ps' mid pid wid, apply_load lds ps = Ok ps' ->
+  In (1, mid, pid, wid) lds \/ not_loaded_at mid pid wid ps -> not_loaded_at mid pid wid ps'.
+Proof.
+  induction lds as [|[[[ty m] p] w] rest IH]; intros ps ps' mid pid wid H Hor; cbn [apply_load] in H.
+  - injection H as <-. destruct Hor as [[]|Hn]. assumption.
+  - destruct (ty =? 1) eqn:Ety.
+    + destruct (find_worker p w ps) as [w0|]; [|discriminate].
+      destruct (zassoc m (w_loaded w0)); [|discriminate]. destruct (zassoc m (w_palloc w0)); [|discriminate].
+      apply (IH _ _ _ _ _ H). destruct Hor as [[E|Hin]|Hn].
+      * injection E as _ -> -> ->. right. apply evict_establishes.
+      * left. assumption.
+      * right. apply evict_preserves. assumption.
+    + apply (IH _ _ _ _ _ H). destruct Hor as [[E|Hin]|Hn]; [injection E as -> _ _ _; discriminate|left; assumption|right; assumption].
+Qed.
+Lemma cw_schedule_load : forall wd ls inv st st' d, cw_schedule wd ls inv st = Ok (st', d) ->
+  d_load d = match i_load inv with Some l => l | None => [] end /\ load_pools inv = Ok (inv_pools inv).
+Proof.
+  intros wd ls inv st st' d H. unfold cw_schedule in H. unfold inv_pools.
+  destruct (admission wd (i_now inv) (i_offered inv) st []) as [[st1 c]|]; [|discriminate].
+  destruct (load_pools inv) as [ps|]; [|discriminate].
+  match type of H with context [infer_pools ?a ?b ?c ?d ?e] => destruct (infer_pools a b c d e) as [[st2 bs]|]; [|discriminate] end.
+  injection H as <- <-. split; reflexivity.
+Qed.
+(* no batch of model M on worker W in an invocation whose LOAD/EVICT decisions evict M from W *)
+Lemma no_batch_on_evicted : forall wd ls inv st st' d, world_wf wd -> Inv_st wd st -> cw_schedule wd ls inv st = Ok (st', d) ->
+  forall b, In b (d_batches d) -> ~ In (1, b_model b, b_pool b, w_id (b_worker b)) (d_load d).
+Proof.
+  intros wd ls inv st st' d Hw Hi H b Hb Hin. destruct (cw_schedule_load _ _ _ _ _ _ H) as [Hl Hp].
+  destruct (cw_schedule_spec _ _ _ _ _ _ Hw Hi H) as [_ [_ [S3 [S4 _]]]]. rewrite Forall_forall in S3, S4.
+  destruct (S3 b Hb) as [Hav _]. destruct (S4 b Hb) as [_ [_ [p [w [Hp1 [Hw1 [Ep [Ew El]]]]]]]].
+  unfold load_pools in Hp. rewrite Hl in Hin. destruct (i_load inv) as [lds|]; [|destruct Hin].
+  pose proof (apply_load_evicted lds _ _ (b_model b) (b_pool b) (w_id (b_worker b)) Hp (or_introl Hin)) as Hn.
+  specialize (Hn p w Hp1 (eq_sym Ep) Hw1 (eq_sym Ew)). unfold w_is_available in Hav. rewrite El, Hn in Hav. discriminate.
+Qed.
+Lemma evicted_at_end_none : forall lds mid pid wid cur, (forall ty, ty = 1 -> ~ In (ty, mid, pid, wid) lds) -> cur = false ->
+  evicted_at_end lds mid pid wid cur = false.
+Proof.
+  induction lds as [|[[[ty m] p] w] rest IH]; intros mid pid wid cur H Hc; cbn [evicted_at_end]; [assumption|].
+  assert (Hr : forall ty0, ty0 = 1 -> ~ In (ty0, mid, pid, wid) rest) by (intros ty0 E Hin; apply (H ty0 E); right; assumption).
+  destruct ((m =? mid) && (p =? pid) && (w =? wid)) eqn:E; [|apply IH; assumption].
+  apply IH; [assumption|]. destruct (ty =? 1) eqn:Ety.
+  - exfalso. apply (H 1 eq_refl). left. f_equal; [f_equal; [f_equal|]|]; lia.
+  - destruct (ty =? 2); [reflexivity|assumption].
+Qed.
+(* what the theorem guarantees of the model's decisions is what the monitor checks on the implementation's *)
+Lemma no_batch_on_evicted_monitored : forall wd ls inv st st' d, world_wf wd -> Inv_st wd st -> cw_schedule wd ls inv st = Ok (st', d) ->
+  mon_evicted (d_load d) (map obatch_of (d_batches d)) = true.
+Proof.
+  intros wd ls inv st st' d Hw Hi H. apply mon_evicted_iff. intros ob t0 Hob Ht. apply in_map_iff in Hob. destruct Hob as [b [<- Hb]].
+  cbn [obatch_of ob_tasks ob_pool ob_worker] in *.
+  destruct (cw_schedule_spec _ _ _ _ _ _ Hw Hi H) as [_ [_ [S3 _]]]. rewrite Forall_forall in S3. destruct (S3 b Hb) as [_ [_ [_ [_ [_ S6]]]]].
+  assert (Em : t_model t0 = b_model b).
+  { destruct (b_tasks b) as [|t1 r]; [discriminate|]. cbn in Ht. injection Ht as ->. inversion S6 as [|? ? [E _] _]. assumption. }
+  rewrite Em. apply evicted_at_end_none; [|reflexivity]. intros ty -> Hin. exact (no_batch_on_evicted _ _ _ _ _ _ Hw Hi H b Hb Hin).
 Qed.
 
 (* task map <-> queues: a request is in the task map exactly when some queue holds it, and its counter is the number
